@@ -118,12 +118,13 @@ def check_message(s, doc, pretty, mo=None, phase='fresh'):
             elif what == S:
                 want = [ref_id(r) for r in m.sources]
                 got = [id_of(v) for v in val]
-                ok = got == want
+                ok = got == want and isinstance(val, (list, tuple)) and [id_of(v) for v in val] == want
                 shape = 'n=%d%s' % (min(len(want), 4), '+blank' if None in want else '')
             elif what == C:
                 want = [idget(c) for c in m.carried]
                 got = [id_of(v) for v in val]
-                ok = got == want and all(canon(v.xml) == canon(c) for v, c in zip(val, m.carried))
+                ok = got == want and isinstance(val, (list, tuple)) and \
+                    all(canon(v.xml) == canon(c) for v, c in zip(val, m.carried))
                 shape = 'n=%d' % min(len(want), 4)
             elif what == 'sent':
                 want = ref_id(m.story_ref)
